@@ -1,0 +1,12 @@
+//go:build verif
+
+package vigil
+
+import "sync/atomic"
+
+// VerifCount returns the current value of the vigil counter (number of BeginVigil calls minus
+// number of CeaseVigil calls). Compiled only with -tags verif; used by external verification
+// harnesses to assert that the counter is exactly 0 whenever no operation is in flight.
+func (v *vigil) VerifCount() int64 {
+	return atomic.LoadInt64(&v.vigils)
+}
